@@ -79,7 +79,9 @@ Definition spec_value (dt : dtype) (buf : list N) (Y X bx by_ bz : N) (c z y x :
 
 (* Structural validator: length a multiple of 4; the channel table inside the
    file; every block header inside the file; bit widths in the allowed set;
-   the encoded values of every block (all bx*by*bz of them) inside the file;
+   the encoded values of every block with a non-zero bit width (all bx*by*bz of
+   them) inside the file -- a 0-bit block has no encoded values and its values
+   offset is unused, whatever it holds;
    every index (padding voxels included) designating a table entry that lies
    inside the file. *)
 Definition wf_block (dt : dtype) (buf : list N) (len base B hpos : N) : bool :=
@@ -88,7 +90,7 @@ Definition wf_block (dt : dtype) (buf : list N) (len base B hpos : N) : bool :=
       let lut := w0 mod 2 ^ 24 in
       let bits := w0 / 2 ^ 24 in
       bits_allowed bits &&
-      (base + 4 * (w1 + ceil_quot (B * bits) 32) <=? len) &&
+      ((bits =? 0) || (base + 4 * (w1 + ceil_quot (B * bits) 32) <=? len)) &&
       forallb (fun p =>
                  match spec_index buf (base + 4 * w1) bits p with
                  | Some idx => base + 4 * lut + itemsize dt * (idx + 1) <=? len
